@@ -6,11 +6,13 @@ P(neg, k, d) == [neg |-> neg, k |-> k, d |-> d]
 Boundary == {P(n, k, d) : n \in BOOLEAN, k \in {7, 8, 15, 16, 31, 32, 63}, d \in -2..2}
 Small == {P(FALSE, 0, 0), P(FALSE, 0, 9), P(TRUE, 0, 1), P(TRUE, 0, 50), P(FALSE, 0, 99)}
 Nums == Boundary \cup Small
-F(t, name, e, len, limits) == [t |-> t, name |-> name, empty |-> e, len |-> len, limits |-> limits]
+F(t, name, e, len, limits) == [t |-> t, name |-> name, empty |-> e, len |-> len, limits |-> limits, minzero |-> FALSE]
 NoLim == << <<0, 0>> >>
+\* a length written with the explicit lower limit 0 ("0...5"): whether the field may be empty is the mark's business alone
+Z(t, name, e, len) == [t |-> t, name |-> name, empty |-> e, len |-> len, limits |-> NoLim, minzero |-> TRUE]
 Others == {F("Text", "customer_id", FALSE, <<>>, NoLim), F("Text", "select", TRUE, <<40>>, NoLim), F("Choice", "comment", FALSE, <<>>, NoLim),
            F("DateTime", "key", TRUE, <<>>, NoLim), F("Pattern", "percent", FALSE, <<7>>, NoLim), F("Text", "audit", TRUE, <<3>>, NoLim),
-           F("Text", "order", FALSE, <<12>>, NoLim)}
+           F("Text", "order", FALSE, <<12>>, NoLim), Z("Text", "code", FALSE, <<5>>), Z("Choice", "grade", TRUE, <<8>>)}
       \cup {F("Decimal", "window", FALSE, <<>>, << <<1, 0>>, <<3, 2>> >>), F("Decimal", "limit", TRUE, <<>>, << <<1, 0>>, <<9, 0>> >>),
             F("Decimal", "amount", FALSE, <<>>, << <<1, 3>>, <<2, 0>> >>), F("Decimal", "rate", TRUE, <<>>, << <<0, 2>>, <<0, 4>> >>),
             F("Decimal", "weight", FALSE, <<>>, << <<2, 1>>, <<5, 1>> >>)}
